@@ -95,3 +95,48 @@ def Score.addAll (s : Score) (times : List Int) : Score := times.foldl Score.add
 def Score.listing (s : Score) : List (Int × Nat) := s.q.iter
 
 end Sc3Verif.C09
+
+namespace Sc3Verif.C09
+
+/-! ### Ppar: parallel pattern streams merged through a queue
+
+`sc3/seq/patterns/eventpatterns.py: Ppar.__embed__`.  Child `c` is a stream of events whose
+deltas are `rem c` (scripted); the queue holds (next time, child).  Output: `(some c, d)` = the next
+event of child `c` with outgoing delta `d`, `(none, d)` = a silent event of duration `d`. -/
+
+structure PparSt where
+  q : TQ
+  rem : List (List Int)        -- remaining deltas of every child
+  now : Int
+
+def peekTime (o : Option (Int × Nat)) (dflt : Int) : Int :=
+  match o with
+  | some x => x.1
+  | none => dflt
+
+def pparLoop : Nat → PparSt → List (Option Nat × Int)
+  | 0, _ => []
+  | fuel + 1, s =>
+    if s.q.empty then []
+    else
+      match s.q.pop.2 with
+      | none => []
+      | some x =>
+        match s.rem.getD x.2 [] with
+        | d :: rest =>
+          let q'' := s.q.pop.1.add (s.now + d) x.2
+          let next := peekTime q''.peekSmallest s.now
+          (some x.2, next - s.now) :: pparLoop fuel { q := q'', rem := s.rem.set x.2 rest, now := next }
+        | [] =>
+          if s.q.pop.1.empty then []
+          else
+            let next := peekTime s.q.pop.1.peekSmallest s.now
+            (none, next - s.now) :: pparLoop fuel { s with q := s.q.pop.1, now := next }
+
+def pparInitQ (n : Nat) : TQ := (List.range n).foldl (fun q c => q.add 0 c) TQ.init
+
+/-- the whole merge: children are queued at time 0 in the order given -/
+def ppar (rem : List (List Int)) : List (Option Nat × Int) :=
+  pparLoop (rem.length + (rem.map List.length).sum + 1) { q := pparInitQ rem.length, rem := rem, now := 0 }
+
+end Sc3Verif.C09
